@@ -260,6 +260,6 @@ var _ = kit.Register(kit.Prop[Case]{
 		"duplicate-free delegations and the delegator-side links are recomputed from the validator records read leaf by leaf " +
 		"from the committed validator trie. Non-trivial: >= 8 blocks and a status, stake or delegation change.",
 	Gen: genCase, Run: runC08,
-	Quick: 25, Thorough: 500, Chunk: 10, MinNonTrivialPct: 40,
+	Quick: 40, Thorough: 300, Chunk: 10, MinNonTrivialPct: 40,
 	QuickBudgetS: 40, ThoroughBudgetS: 300,
 })
